@@ -25,6 +25,7 @@
  'kf': ['C12_atof32_end', 'C12_atof32_gate', 'C12_atof32_hexdigit', 'C12_atof32_noexp', 'C12_atof32_pow_overflow'],
  'kf_note': 'C12_atof32_noexp and C12_atof32_pow_overflow are MASKED on the unchanged tree (status "masked" in findings.json, so the driver neither carves nor probes them): no input reaches them while C12_atof32_end / C12_atof32_hexdigit are open; they were observed in a scratch tree with the two atou defects repaired (NOTES.md) and have to be flipped to "open" together with that repair',
  'witness': {'unwind': 9, 'unwindset': []},
+ 'fallback': 'ghost-free',
  'assumptions': ['text: every character the grammar automaton has to inspect lies inside the text object (SPEC_NEED in spec/c12_atof_ref.h)',
                  'text object <= 2^30 bytes (int-typed digit count passed to local_pow)',
                  'str != NULL'],
